@@ -480,6 +480,97 @@ def constructor_model_check(rep: report.Report) -> None:
                                           f"model assumes on path {i}: {name}")
 
 
+DEFINE_HISTORY_REPLAY = """
+from measured import Dimension, Length, Time
+a, b = {a}, {b}
+U = measured.si.Meter**a * measured.si.Second**b      # a unit of a derived dimension, built before the definition
+New = Dimension.define(name='c01 fresh dimension', symbol='c01fd')
+P = New.unit('c01 fresh unit', 'c01fu')
+V = U * P
+def product_of_factor_dimensions(u):
+    width = max(len(f.dimension.exponents) for f in u.factors)
+    out = [0] * width
+    for f, e in u.factors.items():
+        for i, x in enumerate(f.dimension.exponents):
+            out[i] += e * x
+    return tuple(out)
+want, got = product_of_factor_dimensions(V), tuple(V.dimension.exponents)
+print(V, 'reports', got, ' its factors give', want)
+if got != want or (U * P).dimension is U.dimension:
+    print('REPRODUCED: after Dimension.define a unit reports a dimension that is not the product of its factors'); sys.exit(1)
+sys.exit(0)
+"""
+
+
+def define_history(rep: report.Report) -> None:
+    """Histories that contain Dimension.define: the site obligations above assume that every interned
+    dimension has the table's width.  One step of the real Dimension.define from an arbitrary table
+    (n fundamental dimensions, Number, two derived dimensions with symbolic exponents) must leave
+    that in place: the dimension product that Unit._multiply computes for an earlier derived
+    dimension and the fresh one is the sum of the two (resized) vectors."""
+    import measured
+    from measured import Dimension
+
+    P = symnum.Prover(20000)
+    a, b, c, d = (z3.Int(x) for x in ("c01da", "c01db", "c01dc", "c01dd"))
+    n = 3
+
+    def fn() -> Any:
+        number = im.shadow_dimension([0, 0, 0, 0])
+        f1 = im.shadow_dimension([0, 1, 0, 0])
+        f2 = im.shadow_dimension([0, 0, 1, 0])
+        D = im.shadow_dimension([0, symnum.SInt(a), symnum.SInt(b), 0])
+        E = im.shadow_dimension([0, symnum.SInt(c), symnum.SInt(d), 0])
+        pre = [number, f1, f2, D, E]
+        table = im.AssocTable([(x.exponents, x) for x in pre])
+        saved = {k: Dimension.__dict__[k] for k in ("_known", "_fundamental", "_by_name")}
+        Dimension._known, Dimension._fundamental, Dimension._by_name = table, [number, f1, f2], {}
+        try:
+            new = Dimension.define("c01-new", "c01n")
+            prod = Dimension._multiply.__wrapped__(D, new)
+            quot = Dimension._divide.__wrapped__(new, E)
+            return {"prod": tuple(prod.exponents), "quot": tuple(quot.exponents)}
+        finally:
+            for k, v in saved.items():
+                setattr(Dimension, k, v)
+
+    distinct = [z3.Or(a != c, b != d)] + [z3.Or(x != u, y != v) for x, y in ((a, b), (c, d))
+                                           for u, v in ((0, 0), (1, 0), (0, 1))]
+    with symnum.Shims():
+        ex = explore(fn, assumptions=distinct, max_paths=400)
+    rep.merge_stats(queries=ex.queries, solver_s=ex.solver_s, paths=len(ex.paths))
+    T = symnum.term
+    for i, p in enumerate(ex.paths):
+        key = ("define-history", i)
+        name = f"define-history#p{i}: after Dimension.define, products with the fresh dimension are sums of full-width vectors"
+        if p.exc is not None:
+            if isinstance(p.exc, symnum.HarnessError):
+                rep.ob("unknown", name + f": {p.exc}", key)
+                continue
+            ok, why = False, f"raises {p.outcome}"
+        else:
+            r = p.result
+            want_p = [z3.IntVal(0), a, b, z3.IntVal(1), z3.IntVal(0)]
+            want_q = [z3.IntVal(0), -c, -d, z3.IntVal(1), z3.IntVal(0)]
+            if len(r["prod"]) != n + 2 or len(r["quot"]) != n + 2:
+                ok, why = False, f"vectors of width {len(r['prod'])}/{len(r['quot'])} instead of {n + 2}"
+            else:
+                st, _ = P.check(p.cond, z3.Not(z3.And(*[T(x) == w for x, w in zip(r["prod"], want_p)],
+                                                      *[T(x) == w for x, w in zip(r["quot"], want_q)])))
+                ok, why = st == "unsat", f"exponents differ ({st})"
+        rep.ob("unsat" if ok else "sat", name + ("" if ok else ": " + why), key)
+        if not ok:
+            m = P.shaped_model([p.cond], [a, b]) or {}
+            av, bv = int(m.get("c01da", 7)), int(m.get("c01db", 5))
+            if (av, bv) in ((0, 0), (1, 0), (0, 1)):
+                av, bv = 7, 5
+            rep.violation("C01:history:Dimension.define",
+                          f"after Dimension.define, an earlier derived dimension times the fresh one: {why}",
+                          families.REPLAY_IMPORTS + DEFINE_HISTORY_REPLAY.format(a=av, b=bv))
+            break
+    rep.functions.update(["measured.Dimension.define"])
+
+
 def tasks_for(tier: str) -> List[Tuple]:
     n = im.ndim() if N == 0 else N
     tasks: List[Tuple] = []
@@ -522,6 +613,7 @@ def main(tier: str, selftest_cases: int = 0) -> int:
         raise symnum.HarnessError(f"Unit constructor call sites without a harness: {unknown}")
     rep.coverage["constructor_call_sites"] = {k: v for k, v in sites.items()}
     constructor_model_check(rep)
+    define_history(rep)
     tasks = families.shuffled(tasks_for(tier), rep.seed)
     results = par.run("props.c01", "worker", tasks)
     work.merge(rep, results)
